@@ -185,7 +185,7 @@ static std::vector<Op> genScript(vh::Rng &r, long len, int maxDepth)
   return s;
 }
 
-static void traceCase(long k, int T, long len, bool mainRecords, bool processName, bool slowPairs)
+static void traceCase(long k, int T, long len, bool mainRecords, bool processName, bool slowPairs, bool sequential = false)
 {
   vh::Rng r(vh::seed(), 30000 + (uint64_t)k);
   std::string base = vh::st().outDir + "/trace_" + std::to_string(k);
@@ -215,8 +215,28 @@ static void traceCase(long k, int T, long len, bool mainRecords, bool processNam
       }
     }
   };
+  std::vector<std::thread::id> ids((size_t)T);
+  if (sequential) {
+    // the recording threads run one after the other and have all exited when the log is saved: the runtime hands
+    // the id of a finished thread to a later one, whose events then continue the earlier thread's list
+    if (mainRecords) {
+      tracing::setThreadName("vh-main");
+      play(mainScript);
+    }
+    for (int t = 0; t < T; ++t) {
+      std::thread one([&, t]() {
+        ids[t]         = std::this_thread::get_id();
+        std::string nm = "vh-thread-" + std::to_string(t);
+        tracing::setThreadName(nm.c_str());
+        play(scripts[t]);
+      });
+      one.join();
+    }
+    tracing::saveLog((base + ".json").c_str(), processName ? "vh process" : nullptr);
+  } else {
   for (int t = 0; t < T; ++t)
     th.emplace_back([&, t]() {
+      ids[t]         = std::this_thread::get_id();
       std::string nm = "vh-thread-" + std::to_string(t);
       tracing::setThreadName(nm.c_str());
       play(scripts[t]);
@@ -243,6 +263,30 @@ static void traceCase(long k, int T, long len, bool mainRecords, bool processNam
   }
   for (size_t i = 0; i < th.size(); ++i)
     th[i].join();
+  }
+  // threads that shared one std::thread::id are one recording thread to the recorder: their events follow each
+  // other under the name set last
+  std::vector<int> leader((size_t)T);
+  int reused = 0;
+  for (int t = 0; t < T; ++t) {
+    leader[t] = t;
+    for (int u = 0; u < t; ++u)
+      if (ids[u] == ids[t]) {
+        leader[t] = leader[u];
+        ++reused;
+        break;
+      }
+  }
+  std::vector<std::vector<Op>> merged((size_t)T);
+  std::vector<int> lastOf((size_t)T, -1);
+  for (int t = 0; t < T; ++t) {
+    merged[leader[t]].insert(merged[leader[t]].end(), scripts[t].begin(), scripts[t].end());
+    lastOf[leader[t]] = t;
+  }
+  if (sequential) {
+    vh::count("trace_sequential_scenarios");
+    vh::count("trace_threads_that_reused_an_id", reused);
+  }
   // model log for the offline checker
   std::ofstream mf((base + ".model.json").c_str());
   mf << "{\"case\":" << k << ",\"process_name\":" << (processName ? "\"vh process\"" : "null") << ",\"threads\":{";
@@ -250,8 +294,10 @@ static void traceCase(long k, int T, long len, bool mainRecords, bool processNam
   for (int t = -1; t < T; ++t) {
     if (t < 0 && !mainRecords)
       continue;
-    const std::vector<Op> &s = t < 0 ? mainScript : scripts[t];
-    mf << (firstT ? "" : ",") << "\"" << (t < 0 ? std::string("vh-main") : "vh-thread-" + std::to_string(t)) << "\":[";
+    if (t >= 0 && leader[t] != t)
+      continue;
+    const std::vector<Op> &s = t < 0 ? mainScript : merged[t];
+    mf << (firstT ? "" : ",") << "\"" << (t < 0 ? std::string("vh-main") : "vh-thread-" + std::to_string(lastOf[t])) << "\":[";
     firstT = false;
     for (size_t i = 0; i < s.size(); ++i) {
       mf << (i ? "," : "") << "[\"" << s[i].ph << "\"";
@@ -281,6 +327,7 @@ struct TraceSpec
   int T;
   long len;
   bool mainRecords, processName, slow;
+  bool seq;  // the recording threads run one after the other and have exited when the log is saved
 };
 
 int main(int argc, char **argv)
@@ -291,7 +338,8 @@ int main(int argc, char **argv)
   vh::rule(
       "images: every width x height in 1..17 (thorough 1..33) plus large sizes (every power of two 64..65536 +-1 as width and as height, random widths up to 70000) x 6 writer variants with random pixels in exact-size "
       "buffers, decoded by an independent reader; traces: scenarios (threads 0..8, events per thread in {0,1,8191,8192,8193,20000,random}, "
-      "nesting depth <= 6, with/without process name and main-thread events), each in a fresh process, checked offline by "
+      "nesting depth <= 6, with/without process name and main-thread events, threads alive together until the log is saved or run one after "
+      "the other (exited, ids reused) before it is saved), each in a fresh process, checked offline by "
       "oracle/trace_check.py; distinct = hash of (format,width,height) / (threads,length,flags); non-trivial = more than one pixel / at least "
       "one event");
   g_names = new std::vector<std::string>();
@@ -364,11 +412,19 @@ int main(int argc, char **argv)
       TraceSpec s = {(int)r.range(1, 8), (long)r.pick(std::vector<long>{3, 17, 100, 1000, 8190 + (long)r.below(6), 16384}), r.chance(1, 3), r.chance(1, 2), r.chance(1, 4)};
       if (tsan && s.len > 1000)
         s.len = 1000;
+      s.seq = r.chance(1, 4);
+      if (s.seq && s.T < 2)
+        s.T = 2 + (int)r.below(6);
       specs.push_back(s);
     }
+    TraceSpec q1 = {2, 5, false, false, false, true}, q2 = {8, 100, true, true, false, true}, q3 = {3, 8193, false, true, false, true};
+    specs.push_back(q1);
+    specs.push_back(q2);
+    if (!tsan)
+      specs.push_back(q3);
   }
   vh::forkedCases(
-      (long)specs.size(), [&](long k) { traceCase(k, specs[k].T, specs[k].len, specs[k].mainRecords, specs[k].processName, specs[k].slow); }, 60000, 1,
-      [&](long k) { return std::string("C20-trace #") + std::to_string(k) + " threads=" + std::to_string(specs[k].T) + " len=" + std::to_string(specs[k].len); });
+      (long)specs.size(), [&](long k) { traceCase(k, specs[k].T, specs[k].len, specs[k].mainRecords, specs[k].processName, specs[k].slow, specs[k].seq); }, 60000, 1,
+      [&](long k) { return std::string("C20-trace #") + std::to_string(k) + " threads=" + std::to_string(specs[k].T) + " len=" + std::to_string(specs[k].len) + (specs[k].seq ? " one-after-the-other" : ""); });
   return vh::finish();
 }
